@@ -36,6 +36,7 @@ EXTENDS TableText, TraceIO
      UrlAttrOK          UrlAttrOK: not a URL-valued attribute of the HTML standard
      BoolProbe          BooleanAttrOK(probe): value dropped from a non-boolean attribute
      UrlProbe           UrlAttrOK(probe): URL rewrite applied to a non-URL attribute
+     UrlWsProbe         UrlAttrOK(probe): whitespace inside the value of a URL-valued attribute changed (another URL)
      RawTagOK           RawTagOK: element treated as raw text is not a raw-text element
      RawProbe           RawTagOK(probe): content of a non-raw-text element copied as raw text
      BlockTagOK         BlockTagOK: whitespace-dropping element is not block-level / table part / line break / not rendered
@@ -161,10 +162,17 @@ ColourHexOK == IsKind("colourhex") =>
    table entries and are not judged here. *)
 ColourOf(s, b) == IF Len(b) > 0 /\ b[1] = 35 THEN HexRGBA(b) ELSE NamedRGBA(s)
 ColourSpelled(s, b) == (Len(b) > 0 /\ b[1] = 35) \/ s \in ColourNames
+(* inrgba: for functional spellings (rgb(), rgba(), hsl(), hsla()) the <<r,g,b,a>> the driver rendered the
+   spelling from; empty for hex / keyword inputs, which are decoded here.  Every hex notation (#rgb, #rgba,
+   #rrggbb, #rrggbbaa) carries its alpha: the colour AND the alpha must be unchanged. *)
+(* two colours with alpha 0 are the same colour: fully transparent (CSS Color 4 section 4: the colour channels of a
+   fully transparent colour do not contribute; interpolation is premultiplied) - #rrggbb00 -> #0000 is not a change *)
+SameColour(x, y) == x = y \/ (x # NoColour /\ y # NoColour /\ x[4] = 0 /\ y[4] = 0)
+ColourIn(e) == IF Len(e.inrgba) = 4 THEN e.inrgba ELSE ColourOf(e.inlow, e.inb)
 ColourProbeOK == IsKind("colourprobe") =>
   \/ E.outb = E.inb
   \/ ~ColourSpelled(E.outlow, E.outb)
-  \/ (ColourOf(E.inlow, E.inb) # NoColour /\ ColourOf(E.outlow, E.outb) = ColourOf(E.inlow, E.inb))
+  \/ (ColourIn(E) # NoColour /\ SameColour(ColourOf(E.outlow, E.outb), ColourIn(E)))
   \/ Reject(l, "ColourProbe")
 (* self-test of the transcription against an independent machine source (rejection = exit 2) *)
 RefColourOK == IsKind("refcolour") =>
@@ -199,6 +207,18 @@ UrlTreated(e)  == \/ e.probe = "http" /\ e.present /\ SchemeLowered(e.inval, e.o
 AttrProbeOK == IsKind("attrprobe") =>
   /\ (BoolTreated(E) => E.attr \in BooleanAttrs \/ Reject(l, "BoolProbe"))
   /\ (UrlTreated(E) => E.attr \in UrlAttrs \/ Reject(l, "UrlProbe"))
+(* the other direction, for the code that uses the URL trait: the value of an attribute that IS URL-valued by the
+   standard must stay the same URL.  URL Standard 4.4 "basic URL parser": leading and trailing C0 control or
+   space are removed, then every ASCII tab or newline is removed - spaces inside are kept (they are later
+   percent-encoded, every one of them), so a collapsed run of spaces is a different URL. *)
+UrlNorm(v) ==
+  LET w == SelectSeq(v, LAMBDA c : c \notin {9, 10, 13})
+      a == SelectInSeq(w, LAMBDA c : c > 32)
+      b == SelectLastInSeq(w, LAMBDA c : c > 32)
+  IN IF a = 0 THEN <<>> ELSE SubSeq(w, a, b)
+UrlWsProbeOK == IsKind("attrprobe") =>
+  ((E.probe = "urlws" /\ E.attr \in UrlAttrs /\ E.present) =>
+      (UrlNorm(E.outval) = UrlNorm(E.inval) \/ Reject(l, "UrlWsProbe")))
 
 ----------------------------------------------------------------------------
 (* "every element treated as raw text is a raw-text or escapable-raw-text element"
